@@ -1,6 +1,7 @@
 import Proofs.TopK
 import Proofs.LinkLists
 import Proofs.MostLinked
+import Proofs.HeadlinesAll
 /-! C20 — most-linked pages: the bounded heap keeps the `k` largest keys `(indegree, arrival)`; the
     answer is in non-increasing order of indegree and no omitted page has a larger indegree than a
     listed one. The reported indegree of a page *with* inbound links is the number of distinct sources
@@ -65,5 +66,31 @@ theorem C20_answer (cfg : Config) (dflt : Rule) (rules : List (Bytes × Rule)) (
       (s.cfg.lonelyIndegreeOne = false → s.indegreeEntries 0 = 0) ∧
       (∀ w, w ≠ 0 → FullPrefixList s w (prefixesOf s w) ∧ ((prefixesOf s w).map lruIter).Nodup) :=
   Traph.C20_reachable cfg dflt rules ops hrules hop hwf hok s hs
+
+section EveryHistory
+open Traph State Pag Layout
+/-! ### every history (Proofs/Discipline, SinceClear, ReachableAll, HeadlinesAll) -/
+
+/-- EVERY HISTORY, `clear` and `reopen` included, no request assumed away: the only hypotheses are that byte strings cut into at least one stem (`OpWf`), rule anchors are whole LRUs (`rulesCanonical`, `Canon`) and the caller re-supplies on `reopen` the rules the index carries, as the API requires (`Disciplined`); `clear` acts as a reset (`sinceClear`).  -/
+theorem C20_all {s : State} (hs : Reachable s) :
+    ∃ t, Shape s t ∧ Traph.Inv s t ∧
+      (∀ w ps k depth, FullPrefixList s w ps →
+        ∃ pages l, s.mostLinked ps k depth = .ok l ∧ l = rank k pages ∧
+          (∀ lru m, (lru, m) ∈ pages ↔ IsCandidate s t w depth lru m) ∧
+          ((ps.map lruIter).Nodup → (pages.map (·.1)).Nodup) ∧
+          l.length = min k pages.length ∧
+          (∃ dropped, (l ++ dropped).Perm pages ∧ ∀ x ∈ l, ∀ d ∈ dropped, d.2 ≤ x.2) ∧
+          (∀ lru m, (lru, m) ∈ l → IsCandidate s t w depth lru m) ∧
+          (l.map (·.2)).Pairwise (· ≥ ·) ∧
+          (∀ lru m, IsCandidate s t w depth lru m → (lru, m) ∉ l → ∀ x ∈ l, m ≤ x.2) ∧
+          ((ps.map lruIter).Nodup → (l.map (·.1)).Nodup)) ∧
+      (∀ head, head ≠ 0 → s.indegreeEntries head = (s.walk head).eraseDups.length) ∧
+      (s.cfg.lonelyIndegreeOne = true → s.indegreeEntries 0 = 1 ∧
+        ∀ head, s.indegreeEntries head = (s.walk head).eraseDups.length) ∧
+      (s.cfg.lonelyIndegreeOne = false → s.indegreeEntries 0 = 0) ∧
+      (∀ w, w ≠ 0 → FullPrefixList s w (prefixesOf s w) ∧ ((prefixesOf s w).map lruIter).Nodup) :=
+  Traph.C20_all_reachable hs
+
+end EveryHistory
 
 end Traph.Props
